@@ -6,8 +6,11 @@ use std::collections::BTreeMap;
 
 use ruma_common::{serde::Base64, OwnedTransactionId};
 use ruma_macros::EventContent;
-use serde::{Deserialize, Serialize};
-use serde_json::Value as JsonValue;
+use serde::{
+    de::{Deserializer, Error},
+    Deserialize, Serialize,
+};
+use serde_json::{from_value as from_json_value, Value as JsonValue};
 
 use super::{
     HashAlgorithm, KeyAgreementProtocol, MessageAuthenticationCode, ShortAuthenticationString,
@@ -64,7 +67,7 @@ impl KeyVerificationAcceptEventContent {
 }
 
 /// An enum representing the different method specific `m.key.verification.accept` content.
-#[derive(Clone, Debug, Deserialize, Serialize)]
+#[derive(Clone, Debug, Serialize)]
 #[cfg_attr(not(ruma_unstable_exhaustive_types), non_exhaustive)]
 #[serde(untagged)]
 pub enum AcceptMethod {
@@ -74,6 +77,30 @@ pub enum AcceptMethod {
     /// Any unknown accept method.
     #[doc(hidden)]
     _Custom(_CustomContent),
+}
+
+impl<'de> Deserialize<'de> for AcceptMethod {
+    fn deserialize<D>(deserializer: D) -> Result<Self, D::Error>
+    where
+        D: Deserializer<'de>,
+    {
+        // Deserialize to a `JsonValue` rather than a `RawJsonValue`, because the latter is not
+        // supported when this type is flattened into a struct.
+        let json = JsonValue::deserialize(deserializer)?;
+
+        let method = match json.get("method") {
+            Some(JsonValue::String(method)) => method.clone(),
+            Some(_) => {
+                return Err(D::Error::custom("invalid type for field `method`, expected a string"))
+            }
+            None => return Err(D::Error::missing_field("method")),
+        };
+
+        match method.as_str() {
+            "m.sas.v1" => from_json_value(json).map(Self::SasV1).map_err(D::Error::custom),
+            _ => from_json_value(json).map(Self::_Custom).map_err(D::Error::custom),
+        }
+    }
 }
 
 /// Method specific content of a unknown key verification method.
